@@ -366,3 +366,47 @@ func (g *precGen) special(d int) *pexpr {
 		return pb(op, pb(op, x, y), pb(op, g.expr(d), g.expr(d)))
 	}
 }
+
+// fullParen renders the tree as JavaScript source with every sub-expression parenthesised (the INPUT of an
+// end-to-end witness: esbuild must print it with enough parentheses to stay valid and stable)
+func (x *pexpr) fullParen() string {
+	switch x.kind {
+	case 'i':
+		return fmt.Sprintf("x%d", x.n)
+	case 'n':
+		return fmt.Sprint(x.n)
+	case 'u':
+		t := js_ast.OpTable[x.op].Text
+		v := "(" + x.kids[0].fullParen() + ")"
+		if x.kids[0].kind == 'i' || x.kids[0].kind == 'd' || x.kids[0].kind == 'x' {
+			v = x.kids[0].fullParen() // update / delete targets must stay simple
+		}
+		if x.op == js_ast.UnOpPostDec || x.op == js_ast.UnOpPostInc {
+			return v + t
+		}
+		return t + " " + v
+	case 'b':
+		l := "(" + x.kids[0].fullParen() + ")"
+		if x.op.BinaryAssignTarget() != js_ast.AssignTargetNone {
+			l = x.kids[0].fullParen()
+		}
+		return l + " " + js_ast.OpTable[x.op].Text + " (" + x.kids[1].fullParen() + ")"
+	case 'c':
+		return "(" + x.kids[0].fullParen() + ") ? (" + x.kids[1].fullParen() + ") : (" + x.kids[2].fullParen() + ")"
+	case 'd':
+		return "(" + x.kids[0].fullParen() + ")" + fmt.Sprintf(".x%d", x.n)
+	case 'x':
+		return "(" + x.kids[0].fullParen() + ")[" + x.kids[1].fullParen() + "]"
+	case 'k', 'w':
+		args := []string{}
+		for _, k := range x.kids[1:] {
+			args = append(args, "("+k.fullParen()+")")
+		}
+		pre := ""
+		if x.kind == 'w' {
+			pre = "new "
+		}
+		return pre + "(" + x.kids[0].fullParen() + ")(" + strings.Join(args, ", ") + ")"
+	}
+	return "0"
+}
